@@ -337,7 +337,7 @@ pub fn checks() -> Vec<CheckSpec> {
             CLIENT_REAL, CLIENT_STUB,
             &["tokio/futures channel primitives are linearizable", "transport delivers in order (reordering is injected in the peer's behaviour)"]),
         spec("C02", "exploration",
-            vec![gen("client.general", 2, g_client_general), gen("client.abandon", 1, g_client_abandon), gen("client.shutdown", 1, g_client_shutdown), gen("client.deadlines", 2, g_client_deadlines), gen("client.independent", 1, g_client_independent), gen("client.long", 1, g_client_long)],
+            vec![gen("client.general", 2, g_client_general), gen("client.abandon", 1, g_client_abandon), gen("client.shutdown", 1, g_client_shutdown), gen("client.deadlines", 2, g_client_deadlines), gen("client.independent", 1, g_client_independent), gen("client.long", 1, g_client_long), gen("client.faults", 1, g_client_faults)],
             q, t,
             "strict wake-only scheduling: a task is polled only after its waker fired; every call has a finite deadline below the horizon; hang = call still pending at quiescence; non-trivial = a fault/probe fired; distinct = interleaving signature",
             CLIENT_REAL, CLIENT_STUB,
